@@ -92,40 +92,93 @@ def extract_chain(fn, vid, mode):
     return chain, blocks, b
 
 
+def normalisers(fx):
+    """every function of one 32-bit parameter whose body is a padding chain in return form (zeropad and any helper like it)"""
+    out = []
+    for fn in fx.all_fns():
+        ps = fn.f.get('params') or []
+        if len(ps) != 1 or fn.f.get('implicit') or not fn.file.startswith('src/gr_'):
+            continue
+        try:
+            chain, _, tail = extract_chain(fn, ps[0]['vid'], 'return')
+        except (AnalysisBroken, KeyError, IndexError):
+            continue
+        if chain:
+            out.append((fn, ps[0]['vid'], chain, tail))
+    return out
+
+
+def _check_chain(run, rule, name, fn, chain):
+    for idx, want in enumerate(EXPECT):
+        inst = '%s case %d' % (name, 4 - idx)
+        got = chain[idx] if idx < len(chain) else None
+        if got == want:
+            run.held(rule, inst, fn.where(), '(x & %#x) == %#x -> x & %#x' % want)
+        else:
+            run.violated(rule, inst, fn.where(),
+                         'padding case %d (%d trailing spaces) is %s, expected (mask %#x, pad %#x, keep %#x): '
+                         'a space-padded tag is not mapped to its zero-padded form'
+                         % (idx, 4 - idx, got, want[0], want[1], want[2]), {'chain': chain})
+    if len(chain) > len(EXPECT):
+        run.violated(rule, '%s extra case' % name, fn.where(), 'unexpected additional padding case %s' % (chain[len(EXPECT):],))
+
+
+def _normalised_uses(fn, vid, norm_names):
+    """forward dataflow: [(use element, normalised-on-every-path?)] for the uses of parameter vid in calls and comparisons"""
+    norm_in = {b: None for b in fn.blocks}
+    norm_in[fn.entry] = False
+    work = [fn.entry]
+    uses = {}
+    while work:
+        b = work.pop()
+        st = norm_in[b]
+        for e in fn.blocks[b]['el']:
+            if e['k'] == 'BinaryOperator' and e['op'] == '=' and _is_var(fn, e['c'][0], vid):
+                rhs = fn.strip_all_casts(e['c'][1])
+                st = bool(rhs['k'] == 'CallExpr' and rhs.get('fq') in norm_names and _is_var(fn, rhs['args'][0], vid))
+            elif e['k'] in ('CallExpr', 'CXXMemberCallExpr', 'CXXConstructExpr', 'CXXOperatorCallExpr'):
+                if e.get('fq') in norm_names:
+                    continue
+                args = e.get('args', e.get('c', []))
+                for a in args or []:
+                    if a is not None and _is_var(fn, a, vid):
+                        uses[e['i']] = (e, st and uses.get(e['i'], (None, True))[1])
+            elif e['k'] == 'BinaryOperator' and e['op'] in ('==', '!=', '<', '>', '<=', '>='):
+                if any(_is_var(fn, c, vid) for c in e['c']):
+                    uses[e['i']] = (e, st and uses.get(e['i'], (None, True))[1])
+        for s in fn.succs(b):
+            new = st if norm_in[s] is None else (norm_in[s] and st)
+            if norm_in[s] is None or new != norm_in[s]:
+                norm_in[s] = new
+                work.append(s)
+    return list(uses.values())
+
+
 def check(run, fx, rule):
-    # --- the two implementations of the normalisation ------------------------------------
-    zp = fx.one('(anonymous namespace)::zeropad')
-    zvid = zp.f['params'][0]['vid']
-    zchain, _, ztail = extract_chain(zp, zvid, 'return')
+    # --- the implementations of the normalisation ------------------------------------------
+    norms = normalisers(fx)
+    if not norms:
+        raise AnalysisBroken('no tag normaliser (a function of one tag whose body is the padding chain, like zeropad) was found')
+    norm_names = set()
+    for fn, vid, chain, tail in norms:
+        name = fn.q.split('::')[-1]
+        norm_names.add(fn.q)
+        _check_chain(run, rule, name, fn, chain)
+        ok = any(e['k'] == 'ReturnStmt' and _is_var(fn, e['c'][0], vid) for e in fn.blocks[tail]['el'])
+        if ok:
+            run.held(rule, '%s identity' % name, fn.where(), 'unpadded tags are returned unchanged')
+        else:
+            run.violated(rule, '%s identity' % name, fn.where(), 'the fall-through of %s does not return its argument' % name)
     mi = fx.one('(anonymous namespace)::makeAndInitialize')
     sp = [p for p in mi.f['params'] if p['n'] == 'script']
     if not sp:
-        raise AnalysisBroken('makeAndInitialize: parameter script not found')
+        sp = [p for p in mi.f['params'] if 'int' in p.get('t', '') and '*' not in p.get('t', '')][:1]
+    if not sp:
+        raise AnalysisBroken('makeAndInitialize: script parameter not found')
     svid = sp[0]['vid']
     mchain, mblocks, mtail = extract_chain(mi, svid, 'assign')
-    for name, fn, chain in (('zeropad', zp, zchain), ('makeAndInitialize', mi, mchain)):
-        for idx, want in enumerate(EXPECT):
-            inst = '%s case %d' % (name, 4 - idx)
-            got = chain[idx] if idx < len(chain) else None
-            if got == want:
-                run.held(rule, inst, fn.where(), '(x & %#x) == %#x -> x & %#x' % want)
-            else:
-                run.violated(rule, inst, fn.where(),
-                             'padding case %d (%d trailing spaces) is %s, expected (mask %#x, pad %#x, keep %#x): '
-                             'a space-padded tag is not mapped to its zero-padded form'
-                             % (idx, 4 - idx, got, want[0], want[1], want[2]), {'chain': chain})
-        if len(chain) > len(EXPECT):
-            run.violated(rule, '%s extra case' % name, fn.where(), 'unexpected additional padding case %s' % (chain[len(EXPECT):],))
-    # zeropad's tail returns x unchanged
-    ok = False
-    for e in zp.blocks[ztail]['el']:
-        if e['k'] == 'ReturnStmt' and _is_var(zp, e['c'][0], zvid):
-            ok = True
-    if ok:
-        run.held(rule, 'zeropad identity', zp.where(), 'unpadded tags are returned unchanged')
-    else:
-        run.violated(rule, 'zeropad identity', zp.where(), 'the fall-through of zeropad does not return its argument')
-
+    if mchain:
+        _check_chain(run, rule, 'makeAndInitialize', mi, mchain)
     # --- entries: parameter redefined through zeropad before any other use -----------------
     for q, pname in (('gr_face_featureval_for_lang', 'langname'), ('gr_face_find_fref', 'featId')):
         fn = fx.one(q)
@@ -133,46 +186,16 @@ def check(run, fx, rule):
         if not ps:
             raise AnalysisBroken('%s: parameter %s not found' % (q, pname))
         vid = ps[0]['vid']
-        # forward dataflow: norm[b] = True when on every path to b the parameter was normalised
-        norm_in = {b: None for b in fn.blocks}
-        norm_in[fn.entry] = False
-        work = [fn.entry]
-        uses = []
-        while work:
-            b = work.pop()
-            st = norm_in[b]
-            for e in fn.blocks[b]['el']:
-                if e['k'] == 'BinaryOperator' and e['op'] == '=' and _is_var(fn, e['c'][0], vid):
-                    rhs = fn.strip_all_casts(e['c'][1])
-                    if rhs['k'] == 'CallExpr' and rhs.get('fq') == '(anonymous namespace)::zeropad' \
-                            and _is_var(fn, rhs['args'][0], vid):
-                        st = True
-                    else:
-                        st = False
-                elif e['k'] in ('CallExpr', 'CXXMemberCallExpr', 'CXXConstructExpr', 'CXXOperatorCallExpr'):
-                    if e.get('fq') == '(anonymous namespace)::zeropad':
-                        continue
-                    args = e.get('args', e.get('c', []))
-                    for a in args or []:
-                        if a is not None and _is_var(fn, a, vid):
-                            uses.append((e, st))
-                elif e['k'] == 'BinaryOperator' and e['op'] in ('==', '!=', '<', '>', '<=', '>='):
-                    if any(_is_var(fn, c, vid) for c in e['c']):
-                        uses.append((e, st))
-            for s in fn.succs(b):
-                new = st if norm_in[s] is None else (norm_in[s] and st)
-                if norm_in[s] is None or new != norm_in[s]:
-                    norm_in[s] = new
-                    work.append(s)
+        uses = _normalised_uses(fn, vid, norm_names)
         if not uses:
             raise AnalysisBroken('%s: the tag parameter is never used' % q)
         for e, st in uses:
             inst = '%s(%s) -> %s' % (q, pname, e.get('fq', e['k']))
             if st:
-                run.held(rule, inst, fn.loc(e), 'use dominated by %s = zeropad(%s)' % (pname, pname))
+                run.held(rule, inst, fn.loc(e), 'use dominated by %s = <normaliser>(%s)' % (pname, pname))
             else:
                 run.violated(rule, inst, fn.loc(e),
-                             'tag parameter %s reaches %s without passing through zeropad(): a space-padded '
+                             'tag parameter %s reaches %s without passing through the tag normaliser: a space-padded '
                              'tag will not match the zero-padded tag stored in the font' % (pname, e.get('fq', e['k'])), None)
 
     # --- gr_make_seg forwards script only to makeAndInitialize; uses there lie after the chain
@@ -190,16 +213,27 @@ def check(run, fx, rule):
                         run.held(rule, inst, gm.loc(e), 'forwarded to the normalising helper')
                     else:
                         run.violated(rule, inst, gm.loc(e), 'script reaches %s without normalisation' % e.get('fq'))
-    for _, e in mi.elements():
-        if e['k'] in ('CallExpr', 'CXXMemberCallExpr', 'CXXConstructExpr'):
-            for a in e.get('args', e.get('c', [])) or []:
-                if a is not None and _is_var(mi, a, svid):
-                    inst = 'makeAndInitialize(script) -> %s' % e.get('fq')
-                    b = mi.block_of[e['i']]
-                    if b in mblocks or b not in mi.reachable_from(mtail):
-                        run.violated(rule, inst, mi.loc(e), 'script used inside/before the padding chain')
-                    else:
-                        run.held(rule, inst, mi.loc(e), 'use lies after the padding chain')
+    if mchain:
+        for _, e in mi.elements():
+            if e['k'] in ('CallExpr', 'CXXMemberCallExpr', 'CXXConstructExpr'):
+                for a in e.get('args', e.get('c', [])) or []:
+                    if a is not None and _is_var(mi, a, svid):
+                        inst = 'makeAndInitialize(script) -> %s' % e.get('fq')
+                        b = mi.block_of[e['i']]
+                        if b in mblocks or b not in mi.reachable_from(mtail):
+                            run.violated(rule, inst, mi.loc(e), 'script used inside/before the padding chain')
+                        else:
+                            run.held(rule, inst, mi.loc(e), 'use lies after the padding chain')
+    else:
+        uses = _normalised_uses(mi, svid, norm_names)
+        if not uses:
+            raise AnalysisBroken('makeAndInitialize: neither an in-line padding chain nor a use of the script parameter was found')
+        for e, st in uses:
+            inst = 'makeAndInitialize(script) -> %s' % e.get('fq', e['k'])
+            if st:
+                run.held(rule, inst, mi.loc(e), 'use dominated by script = <normaliser>(script)')
+            else:
+                run.violated(rule, inst, mi.loc(e), 'script reaches %s without passing through a tag normaliser' % e.get('fq', e['k']))
 
     # --- chooseSilf does not depend on script ---------------------------------------------------
     cs = fx.one('graphite2::Face::chooseSilf')
